@@ -88,3 +88,52 @@ def r5_min_update(ctx):
 
 
 RULES += [r5_min_update]
+
+
+def r6_self_loop_head(ctx, rid="C07.r6"):
+    ctx.rule(rid, "wto::visit: a successor already on the DFS stack marks a loop when its dfn is <= the frame's min INCLUDING "
+             "equality - a self-loop has dfn(child) == min == dfn(vertex), so a strict comparison turns a self-looping block into a "
+             "plain vertex that the fixpoint iterator visits once", floor=1)
+    fs = [f for f in ctx.db.fns(WTO, name="visit") if (f.get("cpk") or "").endswith("::wto")]
+    if not ctx.need(fs, "wto::visit"):
+        return
+    n = 0
+    for fn in fs:
+        body = fn["body"]
+        g = paths.guards(body)
+        marks = []
+        for c in walk(body):
+            # non-recursive variant: loop_nodes.insert(child); recursive variant: loop = true
+            if is_call(c, name="insert") and isinstance(strip(c.get("o")), dict) and strip(c["o"]).get("k") == "ref" and \
+                    strip(c["o"]).get("rk") == "local" and "loop" in (strip(c["o"]).get("n") or ""):
+                marks.append(c)
+            if c.get("k") == "asg" and isinstance(strip(c.get("L")), dict) and strip(c["L"]).get("k") == "ref" and \
+                    (strip(c["L"]).get("n") or "") == "loop" and isinstance(strip(c.get("R")), dict) and strip(c["R"]).get("v") == "true":
+                marks.append(c)
+        for mk in marks:
+            cmps = []
+            for c, p in g.get(id(mk), ()):
+                if isinstance(c, tuple):
+                    continue
+                pp = cmp_parts(strip(c))
+                if pp and pp[0] in ("<", "<=", ">", ">="):
+                    op = pp[0]
+                    if not p:
+                        op = {"<": ">=", "<=": ">", ">": "<=", ">=": "<"}[op]
+                    cmps.append((op, pp[1], pp[2], c))
+            if not cmps:
+                continue
+            n += 1
+            op, u, v, c = cmps[-1]
+            if op in ("<=", ">="):
+                ctx.ok("loop mark under a non-strict comparison `%s`" % src(c)[:50], fn, mk)
+            else:
+                ctx.bad("wto::visit marks a loop only when `%s` holds STRICTLY: for an edge v -> v the successor's dfn equals the frame's "
+                        "min, so a block whose only cycle is a self-loop becomes a plain vertex; the fixpoint iterator then analyses it "
+                        "once with its own post still bottom and every later invariant misses the states of the further iterations" %
+                        src(c)[:50], fn, mk, sig="wto-self-loop-strict")
+    if n == 0:
+        ctx.fail("rule %s: no loop mark under a dfn comparison found in wto::visit" % rid)
+
+
+RULES += [r6_self_loop_head]
